@@ -203,8 +203,8 @@ def simulate(ctx, module, cfg=None, num=100, depth=20, seed=0, label=None, **kw)
     return behs, res
 
 
-_node = re.compile(r'^(-?\d+) \[label="(.*?)"(?:,style = filled)?\];?$', re.M | re.S)
-_edge = re.compile(r'^(-?\d+) -> (-?\d+) \[label="(\w*)"', re.M)
+_node = re.compile(r'^(-?\d+) \[label="((?:[^"\\]|\\.)*)"([^\n]*)$', re.M)
+_edge = re.compile(r'^(-?\d+) -> (-?\d+) \[label="((?:[^"\\]|\\.)*)"', re.M)
 
 
 def graph(ctx, module, cfg=None, label=None, **kw):
@@ -220,9 +220,9 @@ def graph(ctx, module, cfg=None, label=None, **kw):
     for m in _node.finditer(txt):
         lab = m.group(2).replace("\\n", "\n").replace('\\"', '"').replace("\\\\", "\\")
         nodes[m.group(1)] = lab
-        if "style = filled" in m.group(0):
+        if "style = filled" in m.group(3):
             inits.append(m.group(1))
-    edges = [(a, act, b) for a, b, act in _edge.findall(txt)]
+    edges = [(a, act.replace('\\"', '"'), b) for a, b, act in _edge.findall(txt)]
     ctx.add_tlc(res, label)
     return nodes, edges, inits, res
 
